@@ -106,6 +106,83 @@ func Evolve(t *rapid.T, v1 *StructSpec, o GenOptions) (*StructSpec, []string) {
 		}
 	}
 
+	// changed definitions of existing columns: unique / default / not null / size added, singly and combined
+	{
+		// v1 and v2 have the same structure: collect their changeable leaves in the same order
+		type pair struct{ old, new *FieldSpec }
+		var pairs []pair
+		var walk func(a, b *StructSpec, inPtr bool, seen map[*StructSpec]bool)
+		walk = func(a, b *StructSpec, inPtr bool, seen map[*StructSpec]bool) {
+			if seen[b] {
+				return
+			}
+			seen[b] = true
+			for i, fb := range b.Fields {
+				if i >= len(a.Fields) {
+					break
+				}
+				fa := a.Fields[i]
+				if fb.Embedded != nil {
+					if fb.FixedType == nil && shared[fb.Embedded] <= 1 {
+						walk(fa.Embedded, fb.Embedded, inPtr || fb.Ptr, seen)
+					}
+					continue
+				}
+				if fb.Marker || fb.PrimaryKey || fb.Shadowed || fb.Ignored || inPtr {
+					continue
+				}
+				pairs = append(pairs, pair{fa, fb})
+			}
+		}
+		walk(v1, v2, false, map[*StructSpec]bool{})
+		nchg := rapid.IntRange(0, 2).Draw(t, "v2.changes")
+		for i := 0; i < nchg && len(pairs) > 0; i++ {
+			label := fmt.Sprintf("v2.change%d", i)
+			p := rapid.SampledFrom(pairs).Draw(t, label+".field")
+			f, k := p.new, p.new.Kind
+			var what []string
+			mask := rapid.IntRange(1, 15).Draw(t, label+".what")
+			if mask&1 != 0 && !f.Unique && !f.DistinctValue && k.distinct != nil && k.Family != FBool && f.Default == nil && f.AutoTime == "" {
+				f.Unique, f.DistinctValue = true, true
+				if o.NoUniqueNameClash && uniqueNameClash(v2) {
+					// listed finding unique-name-collision
+					f.Unique, f.DistinctValue = false, false
+					if o.OnExcludeTag != nil {
+						o.OnExcludeTag("unique-name-collision")
+					}
+				} else {
+					p.old.DistinctValue = true // the existing rows already hold distinct values
+					what = append(what, "unique")
+				}
+			}
+			if mask&2 != 0 && f.Default == nil && f.AutoTime == "" {
+				var ds []Default
+				for _, d := range k.Defaults {
+					if !d.DB && !d.NonCanonical {
+						ds = append(ds, d)
+					}
+				}
+				if len(ds) > 0 {
+					d := rapid.SampledFrom(ds).Draw(t, label+".default")
+					f.Default = &d
+					what = append(what, "default:"+d.Tag)
+				}
+			}
+			if mask&4 != 0 && !f.NotNull && (f.Default == nil || !f.Default.DB) {
+				f.NotNull = true
+				p.old.ValuesNotNull = true // the existing rows hold no NULL
+				what = append(what, "not null")
+			}
+			if mask&8 != 0 && k.Family == FString && len(f.Extra) == 0 {
+				f.Size = rapid.SampledFrom([]int{24, 64, 512}).Draw(t, label+".size")
+				what = append(what, fmt.Sprintf("size:%d", f.Size))
+			}
+			if len(what) > 0 {
+				added = append(added, "changed "+f.Name+": +"+strings.Join(what, " +"))
+			}
+		}
+	}
+
 	// an index named exactly like a column that an earlier-declared index already covers
 	if rapid.IntRange(0, 2).Draw(t, "v2.colindex") == 0 {
 		if a := AddColumnNamedIndex(t, v2, "v2.colindex"); a != "" {
@@ -263,6 +340,21 @@ func (m *Model) HasExprDefault() bool {
 	for _, l := range m.Leaves {
 		if l.Spec.Default != nil && strings.Contains(l.Spec.Default.Tag, "(") {
 			return true
+		}
+	}
+	return false
+}
+
+// uniqueNameClash: two `unique` columns whose constraint names coincide after the naming strategy's case folding.
+func uniqueNameClash(s *StructSpec) bool {
+	seen := map[string]bool{}
+	for _, l := range Build(s).Leaves {
+		if l.Spec.Unique {
+			n := schema.NamingStrategy{}.UniqueName("t", l.DBName)
+			if seen[n] {
+				return true
+			}
+			seen[n] = true
 		}
 	}
 	return false
